@@ -781,10 +781,41 @@ theorem pop_inv {s : St} (h : Inv s) (pos : Int) : Inv (pop s pos).1 := by
       obtain ⟨hp1, hp2⟩ := mem_evict hp
       exact mem_eraseIdx_of_ne (h.cache p hp1) ho hp2
 
+theorem firstEqv_mem {s : St} {o m : ObjId} : ∀ {l : List ObjId}, firstEqv s o l = some m → m ∈ l
+  | [], h => by simp [firstEqv] at h
+  | a :: t, h => by
+    simp only [firstEqv] at h
+    split at h
+    · cases h; exact List.mem_cons_self
+    · exact List.mem_cons_of_mem _ (firstEqv_mem h)
+
+/-- with unique numbers the first member `==` a member is that member itself -/
+theorem firstEqv_self {s : St} {o : ObjId} (hnd : (s.objs.map s.num).Nodup) (ho : o ∈ s.objs) :
+    firstEqv s o s.objs = some o := by
+  have key : ∀ (l : List ObjId), (l.map s.num).Nodup → o ∈ l → firstEqv s o l = some o := by
+    intro l
+    induction l with
+    | nil => intro _ h; cases h
+    | cons a t ih =>
+      intro hn hm
+      simp only [List.map_cons, List.nodup_cons] at hn
+      simp only [firstEqv]
+      rcases List.mem_cons.mp hm with rfl | hm
+      · simp [eqv]
+      · have hne : a ≠ o := by
+          intro e; subst e
+          exact hn.1 (List.mem_map_of_mem hm)
+        have hnum : s.num a ≠ s.num o := by
+          intro e
+          exact hn.1 (e ▸ List.mem_map_of_mem hm)
+        simp [eqv, hne, hnum, ih hn.2 hm]
+  exact key _ hnd ho
+
 theorem remove_inv {s : St} (h : Inv s) (o : ObjId) : Inv (remove s o).1 := by
   unfold remove
   split
-  · refine shrink_inv h _ _ List.erase_sublist ?_
+  · rename_i m hm
+    refine shrink_inv h _ _ List.erase_sublist ?_
     intro p hp
     obtain ⟨hp1, hp2⟩ := mem_evict hp
     exact (List.mem_erase_of_ne hp2).mpr (h.cache p hp1)
@@ -801,7 +832,10 @@ theorem delitem_inv {s : St} (h : Inv s) (n : Int) : Inv (delitem s n).1 := by
     exact this ▸ i1
   · rename_i s1 o heq
     have e1 : s1 = (get s n).1 := by rw [heq]
+    have e2 : (get s n).2 = some o := by rw [heq]
     subst e1
+    have ho : o ∈ (get s n).1.objs := by rw [hc.objs]; exact (get_some h.cache e2).1
+    rw [firstEqv_self i1.nodup ho]
     have := shrink_inv i1 ((get s n).1.objs.erase o) (evict (get s n).1.cache o) List.erase_sublist (by
       intro p hp
       obtain ⟨hp1, hp2⟩ := mem_evict hp
